@@ -78,3 +78,19 @@ let run (input : S.t) (observed : S.t) : S.t * string =
        with Failure m -> "fails:malformed-log")
     | _ -> "fails:malformed-observation" in
   (expected, verdict)
+
+
+(* ---- C12: every request of a concurrent round on a cold root answers as it does alone ---- *)
+let project_c12 = function
+  | S.L (S.A "round" :: rs) -> S.L (S.A "round" :: List.map (function S.A "same" -> S.A "same" | _ -> S.A "differs") rs)
+  | x -> x
+
+let run_c12 (input : S.t) (observed : S.t) : S.t * string =
+  let n = (match input with S.L [S.A "round"; S.L (S.A "reqs" :: rs); _] -> List.length rs | _ -> failwith "c12: input") in
+  let expected = S.L (S.A "round" :: List.init n (fun _ -> S.A "same")) in
+  let verdict = (match observed with
+      | S.L [S.A "deadlock"] -> "fails:deadlock-a-round-of-concurrent-requests-did-not-finish"
+      | S.L (S.A "round" :: rs) ->
+        if List.exists (function S.A "same" -> false | _ -> true) rs then "fails:response-differs-from-the-response-the-request-gets-alone" else "holds"
+      | _ -> "fails:shape") in
+  (expected, verdict)
